@@ -54,6 +54,7 @@ def hwErrAt (e : String) : String := ((e.splitOn "@").getLast?).getD "?"
 
 def hwmonStep (st : HwmonDrvSt) (op : String) (a : KV) : HwmonDrvSt × String :=
   match op with
+  | "hw.files" => (st, "ok")   -- files in a chip's (real) directory: binding is a function of the chip table alone
   | "hw.tree" =>
     let chips := getChips (hwParseTree (a.str "spec" "-"))
     ({ st with chips := chips }, hwDump chips)
